@@ -226,13 +226,15 @@ func C17(c *ev.Ctx) {
 	if len(r.Tagged["ALPHA"]) == 0 || json.Unmarshal(r.Tagged["ALPHA"][0], &alpha) != nil {
 		ev.Fatal("no patch alphabet emitted")
 	}
-	patches := make([]patch.Patch, len(alpha))
+	// the concrete patches are kept as bytes: every replay gets its own patch objects, so that an implementation that
+	// writes into patch values is reported (patch-list-modified) instead of racing with the other replays
+	patchBytes := make([][]byte, len(alpha))
 	for i, a := range alpha {
 		p, err := concretePatch(a)
 		if err != nil {
 			ev.Fatal("concretise patch %+v: %v", a, err)
 		}
-		patches[i] = p
+		patchBytes[i], _ = json.Marshal(p)
 	}
 	edges := make([]patchEdge, len(r.Cases))
 	for i, raw := range r.Cases {
@@ -252,7 +254,11 @@ func C17(c *ev.Ctx) {
 		list := make([]patch.Patch, len(e.Edge.List))
 		names := ""
 		for k, idx := range e.Edge.List {
-			list[k] = patches[idx-1]
+			pt, perr := patch.FromBytes(patchBytes[idx-1])
+			if perr != nil {
+				ev.Fatal("patch: %v", perr)
+			}
+			list[k] = pt
 			names += ":" + alpha[idx-1].A
 		}
 		listSnap, _ := json.Marshal(list)
